@@ -320,6 +320,36 @@ def clamp_failures(case, rec):
     if bad:
         return [{"what": f"LED on pin {case['pin']}: analogWrite({bad[0][1]}, {bad[0][2]}) reaches the pin unclamped",
                  "expected": "0..255", "observed": bad[0][2], "key": "led-clamp"}]
+    return limit_failures(case, rec)
+
+
+def limit_failures(case, rec):
+    """'clamped on the device to the documented limits': a case that starts with one set_brightness(v), v outside 0..255, followed by
+    get_brightness - the duty written is the limit itself (255 above, 0 below) and get_brightness() prints it"""
+    ops = case["ops"]
+    if not ops or ops[0]["code"] != 4 or not ops[0]["args"] or 0 <= ops[0]["args"][0].frac() <= 255:
+        return []
+    if any(o["code"] not in (2, 3) for o in ops[1:]):
+        return []
+    v = ops[0]["args"][0].frac()
+    lim = 255 if v > 255 else 0
+    dev, fgets, _ = fw_items(rec["fw"])
+    aws = [d[2] for d in dev if d[0] == 2]
+    if not aws or aws[-1] != lim:
+        return [{"what": f"LED on pin {case['pin']}: set_brightness({ops[0]['args'][0].v}) is out of range; the device writes duty "
+                         f"{aws[-1] if aws else None}, the documented limit is {lim}", "expected": lim, "observed": aws[-1] if aws else None, "key": "led-clamp-limit"}]
+    gi = 0
+    for o in ops[1:]:
+        t = fgets[gi] if gi < len(fgets) else None
+        gi += 1
+        if o["code"] == 3:
+            try:
+                ok = float(t) == lim
+            except (TypeError, ValueError):
+                ok = False
+            if not ok:
+                return [{"what": f"LED on pin {case['pin']}: after the out-of-range set_brightness({ops[0]['args'][0].v}) get_brightness() prints {t!r}, "
+                                 f"the documented limit is {lim}", "expected": lim, "observed": t, "key": "led-clamp-limit-state"}]
     return []
 
 
